@@ -109,7 +109,17 @@ impl<'a, 'tcx> Dumper<'a, 'tcx> {
             }
         }
         let vis = if matches!(kind, DefKind::Fn | DefKind::AssocFn) {
-            if tcx.visibility(did).is_public() { "pub" } else { "priv" }
+            let reachable = did
+                .as_local()
+                .map(|l| tcx.effective_visibilities(()).is_reachable(l))
+                .unwrap_or(false);
+            if reachable {
+                "pub"
+            } else if tcx.visibility(did).is_public() {
+                "pub-unreachable"
+            } else {
+                "priv"
+            }
         } else {
             "priv"
         };
